@@ -5,6 +5,7 @@
 //!   DIR/meta.json statistics of what was generated
 mod common;
 mod stylefmt;
+mod treegen;
 mod c02;
 mod c18;
 
